@@ -281,3 +281,44 @@ func VF_C18_types_and_arity() {
 	vfAssert(!ok, "xadd-rejected-creates-nothing")
 	vfAssert(vfLocksHeld() == 0, "xadd-rejected-no-lock-left")
 }
+
+// ---------------------------------------------------------------------------
+// VF_C18_sequence_limit: the top entry's sequence number is at or next to the largest representable one
+// and its millisecond is ahead of (or equal to) the clock: an automatic ID is either refused or strictly
+// greater than the top ID - it never wraps around.
+func VF_C18_sequence_limit() {
+	m := hNewDb(2)
+	top := int64(9223372036854775807) - int64(vfChoice("below-max", 3))
+	ms := int64(9000000000000000) // far ahead of any clock reading
+	r := hExec(m, bs("xadd"), bs("x"), []byte(strconv.FormatInt(ms, 10)+"-"+strconv.FormatInt(top, 10)), bs("f"), bs("v"))
+	vfAssert(r.k == rBulk, "limit-setup")
+	var id []byte
+	switch vfChoice("form", 2) {
+	case 0:
+		id = bs("*")
+	case 1:
+		id = []byte(strconv.FormatInt(ms, 10) + "-*")
+	}
+	r2 := hExec(m, bs("xadd"), bs("x"), id, bs("g"), bs("w"))
+	if r2.k == rBulk {
+		t, s, ok := idParse(r2.b)
+		vfAssert(ok, "limit-id-text")
+		vfAssert(idLess(ms, top, t, s), "automatic-id-not-greater-than-top")
+		vfAssert(s >= 0 && t >= 0, "automatic-id-negative-component")
+	} else {
+		// refused: only legitimate when no greater ID with this millisecond exists
+		vfAssert(r2.k == rErr, "limit-refusal-is-an-error")
+		vfAssert(top == 9223372036854775807, "automatic-id-refused-although-a-successor-exists")
+	}
+	// the stream still lists its entries in increasing ID order
+	rr := hExec(m, bs("xrange"), bs("x"), bs("-"), bs("+"))
+	vfAssert(rr.k == rArr && len(rr.a) >= 1, "limit-xrange")
+	var pt, ps int64 = -1, -1
+	for _, e := range rr.a {
+		if e.k == rArr && len(e.a) == 2 {
+			t, s, ok := idParse(e.a[0].b)
+			vfAssert(ok && idLess(pt, ps, t, s), "limit-xrange-order")
+			pt, ps = t, s
+		}
+	}
+}
